@@ -282,6 +282,8 @@ def units():
             Unit("update_mu_boundary", U + "update_mu_boundary", run_density, props=["C01"], timeout=600),
             Unit("injection and compatibility lemmas", "lemmas over the C03 stencil contracts", run_lemmas, props=["C01"], timeout=300),
             Unit("TDGLSolver.__init__", U + "__init__ + tdgl.device.device:Device.Bc2/A0/K0", lambda m=None: ic.run_init(m, prefixes=("C01.",)), props=["C01"], timeout=900),
+            Unit("TDGLSolver.__init__[currents as a function of time]", U + "__init__",
+                 lambda m=None: ic.run_init(m, prefixes=("C01.",), narrow=dict(currents_given_as_a_function=True, adaptive=False, include_screening=False, terminal_psi_unset=False)), props=["C01"], timeout=900),
             Unit("Device.terminal_info", "tdgl.device.device:Device.terminal_info", _terminal_info, props=["C01", "C06"], timeout=300),
             Unit("update[no screening, static A]", U + "update", _upd(False, False), props=["C01"], timeout=900),
             Unit("update[no screening, dynamic A]", U + "update", _upd(False, True), props=["C01"], timeout=900),
